@@ -51,11 +51,25 @@ def step (st : St) : List String → St × String
     | some k => ({ st with mtu := clampMtu k }, s!"mtu {clampMtu k}")
     | none => (st, "bad-op")
   | ["fsend", hx] => match parseHex hx with
-    | some bs => match send st.mtu st.so bs with
-      | .ok (fs, so') => ({ st with so := so' },
+    | some bs => match sendP st.mtu st.so bs with
+      | none => (st, "panic")
+      | some (.ok (fs, so')) => ({ st with so := so' },
           s!"frames {st.so} {fs.length}" ++ String.join (fs.map (fun f => " " ++ toHex (frameBytes f))))
-      | .error .packetTooLarge => (st, "err too_large")
-      | .error .emptyPacket => (st, "err empty")
+      | some (.error .packetTooLarge) => (st, "err too_large")
+      | some (.error .emptyPacket) => (st, "err empty")
+    | none => (st, "bad-op")
+  -- hook `Fragmenter::verif_set_stream_offset` (u64)
+  | ["fso", n] => match n.toNat? with
+    | some k => if k < 2 ^ 64 then ({ st with so := k }, "ok") else (st, "bad-op")
+    | none => (st, "bad-op")
+  -- `fsendlen <len>`: like `fsend` for a packet of `len` zero bytes; answers only the stream offset and the
+  -- frame count (used for oversize packets, whose hex form would be needlessly long)
+  | ["fsendlen", n] => match n.toNat? with
+    | some k => match sendP st.mtu st.so (List.replicate k (0 : UInt8)) with
+      | none => (st, "panic")
+      | some (.ok (fs, so')) => ({ st with so := so' }, s!"frames {st.so} {fs.length}")
+      | some (.error .packetTooLarge) => (st, "err too_large")
+      | some (.error .emptyPacket) => (st, "err empty")
     | none => (st, "bad-op")
   | _ => (st, "bad-op")
 
